@@ -12,7 +12,10 @@ if [ "$DEMO" != "-" ]; then
   ( cd "$WT" && PYTHONPATH="$WT/src" timeout 600 /venv/bin/python "$(realpath "$DEMO")" >/dev/null 2>&1 ); echo "demo-on-unpatched-exit=$?"
 fi
 if ! git -C "$WT" apply "$PATCH" 2>/dev/null; then
-  git -C "$WT" apply --3way "$PATCH" 2>&1 | tail -2 || { echo "PATCH-DOES-NOT-APPLY"; exit 8; }
+  if ! git -C "$WT" apply --3way "$PATCH" >/dev/null 2>&1 || grep -rq '^<<<<<<< ' "$WT/src"; then
+    echo "PATCH-DOES-NOT-APPLY (conflicts with the current tree)"; exit 8
+  fi
+  echo "patch applied with 3-way merge"
 fi
 git -C "$WT" diff --stat | tail -1
 if [ -z "${SKIPTESTS:-}" ]; then
